@@ -74,7 +74,7 @@ def global_writes(prog: Program) -> List[Tuple[FuncInfo, ast.AST, str]]:
             if isinstance(node, ast.Assign):
                 for target in node.targets:
                     for sub in ast.walk(target):
-                        if isinstance(sub, ast.Name):
+                        if isinstance(sub, ast.Name) and isinstance(sub.ctx, ast.Store):
                             local_names.add(sub.id)
             elif isinstance(node, (ast.For, ast.comprehension)):
                 for sub in ast.walk(node.target):
